@@ -7,8 +7,10 @@
 EXTENDS TraceIO, FastqForm
 VARIABLE l
 
-WF(e) == e.container_ok /\ (IF e.paired THEN WellFormedPair(e.lines1, e.lines2) ELSE WellFormed(e.lines1))
-AllRecords(e) == [k \in 1..NumRecords(e.lines1) |-> k - 1]
+WF(e) == e.container_ok /\ (IF e.interleaved THEN WellFormedInterleaved(e.lines1)
+                          ELSE IF e.paired THEN WellFormedPair(e.lines1, e.lines2) ELSE WellFormed(e.lines1))
+\* (an interleaved file holds both mates of every pair: out1 / out2 index the pairs)
+AllRecords(e) == [k \in 1..(IF e.interleaved THEN NumRecords(e.lines1) \div 2 ELSE NumRecords(e.lines1)) |-> k - 1]
 
 Check(e) ==
   /\ Rep(e.id, "Terminates", ~e.hung)
